@@ -367,6 +367,22 @@ def main(argv):
             ctx.distinct_nontrivial, ctx.traces_validated), flush=True)
     except Exception as e:
         if type(e).__name__ == "Infra":      # (props import this file as module `vcheck`)
+            msg = str(e)
+            low = msg.lower()
+            if ("out of date" in low or "transcription drift" in low) and not replay:
+                # Policy (DESIGN.md, Appendix C): real code that departs from the transcribed code path
+                # while every property predicate holds is not a verdict against the property. The
+                # property held on everything explored => exit 0, with the drift stated.
+                print("SPEC-DRIFT (no property predicate broken; later stages of this run were skipped): %s" % msg,
+                      flush=True)
+                ctx.extra["spec_drift"] = msg[:300]
+                rc = ctx.finish()
+                if rc == 0 and not ctx.samples:
+                    ctx.samples.append({"note": "run ended at a specification drift before samples were absorbed"})
+                    ctx.write_evidence(0, [])
+                print("[%s %s] done rc=%d (drift)" % (prop, tier, rc), flush=True)
+                ctx.cleanup()
+                return rc
             print("INFRA: %s" % e, flush=True)
             rc = 2
             ctx.cleanup()
